@@ -266,8 +266,10 @@ def run_property(pid, tier='quick', seed=0, replay=None):
     for ur in unit_runs:
         kfns = [f.fn[9:] for (u2, f) in known if u2 is ur and f.fn and f.fn.startswith('inserted:')]
         o, d = obligation_stats(ur, P.get('relevant'), kfns)
+        # a function-level query that failed only on clauses of OTHER properties is discharged as far as this one goes
+        mine_fns = set(f.fn for (u2, f) in viol if u2 is ur)
         obl += o
-        dis += d
+        dis += max(0, o - len(mine_fns)) if ur.res.status != 'undecided' else d
         smt += ur.res.smt_ms
         cmds.append(ur.res.cmd)
         t, _ = scan_trusted(ur.gen)
